@@ -57,6 +57,33 @@ PROBE = {"B": 0xff, "H": 0xffff, "I": 0xffffffff, "Q": 0xffffffffffffffff,
          "BI": (0xff, 0xffffffff)}
 
 
+# values that a format must reject (out of range, wrong type, wrong number
+# of members; the last entries of the multi-member formats are wrong in a
+# LATER member only).  '?' takes any object, only the arity can be wrong; 'x'
+# is scaled and rounded first, so there are more ways to fail.
+def _bad_int(fmt):
+    bits = 8 * SIZES[fmt]
+    if fmt.islower():
+        lo, hi = -(1 << (bits - 1)), (1 << (bits - 1)) - 1
+    else:
+        lo, hi = 0, (1 << bits) - 1
+    return [hi + 1, lo - 1, 1.5, None, "1", (1, 2), 1 << 70]
+
+
+BAD = {f: _bad_int(f) for f in "BHIQbhiqlL"}
+BAD["?"] = [(True, False), ()]
+BAD["x"] = [1e15, -1e15, float("nan"), float("inf"), None, (1.0, 2.0)]
+BAD["3H"] = [(1, 2), (1, 2, 3, 4), 5, (0x10000, 2, 3), (1, -1, 3),
+             (1, 2, 0x10000), (1, 2, 1.5)]
+BAD["3B"] = [(1, 2), 5, (256, 2, 3), (1, 256, 3), (1, 2, -1), (1, 2, None)]
+BAD["2I"] = [(1,), (1, 2, 3), (-1, 2), (1, 1 << 32), (1, 1.5)]
+BAD["hI"] = [(7,), 5, (40000, 1), (7, -1), (7, 1 << 32), (7, None)]
+BAD["BI"] = [(7,), (256, 1), (7, -1), (7, 1 << 32), (-1, -1)]
+# the two values of the write histories (A-B-A across the processes): they
+# differ for every format
+HIST_A, HIST_B = 1, 3
+
+
 def owned_pattern(fmt):
     """offsets (relative to the variable's start) of the bytes that become
     non-zero when PROBE[fmt] is written: all of them, except padding"""
@@ -82,16 +109,22 @@ def value_for(fmt, k, extra=0):
     return VALUES[fmt][k % NVALUES]
 
 
-def class_name(fmts):
-    return "Dev_" + "_".join(_IDENT.get(f, f) for f in fmts)
+def class_name(fmts, written=None):
+    """a 'w' after a format: that variable is declared with write=True"""
+    written = written or (False,) * len(fmts)
+    return "Dev_" + "_".join(_IDENT.get(f, f) + ("w" if w else "")
+                             for f, w in zip(fmts, written))
 
 
-def _make(fmts):
-    name = class_name(fmts)
-    ns = {"v%d" % i: DeviceVar(f) for i, f in enumerate(fmts)}
+def _make(fmts, written=None):
+    written = written or (False,) * len(fmts)
+    name = class_name(fmts, written)
+    ns = {"v%d" % i: DeviceVar(f, write=True) if w else DeviceVar(f)
+          for i, (f, w) in enumerate(zip(fmts, written))}
     ns["__module__"] = __name__
     ns["__qualname__"] = name
     ns["FMTS"] = tuple(fmts)
+    ns["WRITTEN"] = tuple(written)
     return type(name, (Device,), ns)
 
 
@@ -103,6 +136,19 @@ for _n in (1, 2, 3):
         CLASSES[_cls.__name__] = _cls
         ORDER.append(_cls.__name__)
         globals()[_cls.__name__] = _cls
+NPLAIN = len(ORDER)
+# the same with variables "written to by the user" (DeviceVar(fmt,
+# write=True)): all declaration multisets up to size 2 with every non-empty
+# pattern of written variables
+WORDER = []
+for _n in (1, 2):
+    for _fmts in itertools.combinations_with_replacement(FORMATS, _n):
+        for _wr in itertools.product((True, False), repeat=_n):
+            if any(_wr):
+                _cls = _make(_fmts, _wr)
+                CLASSES[_cls.__name__] = _cls
+                WORDER.append(_cls.__name__)
+                globals()[_cls.__name__] = _cls
 
 
 class Dev_base_H_q(Device):
@@ -169,11 +215,39 @@ class Dev_sub_padded2(Device):
     v1 = DeviceVar("l")
 
 
+class Dev_sub_multi_w(Device):
+    """multi-element and padded formats, written by the user"""
+    FMTS = ("3H", "hI", "3B")
+    v0 = DeviceVar("3H", write=True)
+    v1 = DeviceVar("hI", write=True)
+    v2 = DeviceVar("3B")
+
+
+class Dev_base_wr(Device):
+    FMTS = ("H", "I", "b")
+    v0 = DeviceVar("H", write=True)
+    v1 = DeviceVar("I")
+    v2 = DeviceVar("b", write=True)
+
+
+class Dev_sub_wr(Dev_base_wr):
+    """re-declarations that change the kind of the variable"""
+    FMTS = ("H", "I", "b", "?")
+    v0 = DeviceVar("H")
+    v1 = DeviceVar("I", write=True)
+    v3 = DeviceVar("?", write=True)
+
+
 for _cls in (Dev_base_H_q, Dev_sub_B_x, Dev_base_ovr, Dev_sub_ovr,
              Dev_sub_multi, Dev_sub_multi2, Dev_sub_native, Dev_sub_padded,
              Dev_sub_padded2):
     CLASSES[_cls.__name__] = _cls
     ORDER.append(_cls.__name__)
+NSPECIAL = 9
+for _cls in (Dev_sub_multi_w, Dev_base_wr, Dev_sub_wr):
+    CLASSES[_cls.__name__] = _cls
+    WORDER.append(_cls.__name__)
+ORDER += WORDER
 
 
 def variables(sg):
@@ -197,14 +271,37 @@ def read_all(sg):
     return out
 
 
-def write_all(sg, k, extra, parity=None):
+def write_all(sg, k, extra, parity=None, flat=False):
+    """round k: variable n gets value_for(fmt, k + n); flat: every variable
+    gets the k-th value of its format (k = "probe": the value without zero
+    bytes)"""
     out = []
     for n, (owner, name, fmt) in enumerate(variables(sg)):
         if parity is not None and n % 2 != parity:
             out.append(None)
             continue
         try:
-            setattr(owner, name, value_for(fmt, k + n, extra))
+            setattr(owner, name, flat_value(fmt, k, extra) if flat
+                    else value_for(fmt, k + n, extra))
+            out.append(None)
+        except Exception as e:
+            out.append(("exc", type(e).__name__, repr(e)))
+    return out
+
+
+def flat_value(fmt, k, extra=0):
+    return PROBE[fmt] if k == "probe" else value_for(fmt, k, extra)
+
+
+def reject_all(sg, shift):
+    """try to write one value the format must reject into every variable
+    (which one: by position, shifted); returns per variable None (the write
+    was accepted) or the exception"""
+    out = []
+    for n, (owner, name, fmt) in enumerate(variables(sg)):
+        bad = BAD[fmt][(n + shift) % len(BAD[fmt])]
+        try:
+            setattr(owner, name, bad)
             out.append(None)
         except Exception as e:
             out.append(("exc", type(e).__name__, repr(e)))
@@ -225,6 +322,12 @@ def child_main(groups, conn):
             elif cmd[0] == "write":
                 _, k, extra, parity = cmd
                 conn.send([write_all(sg, k, extra, parity) for sg in groups])
+            elif cmd[0] == "writeflat":
+                _, k, extra = cmd
+                conn.send([write_all(sg, k, extra, None, True)
+                           for sg in groups])
+            elif cmd[0] == "reject":
+                conn.send([reject_all(sg, cmd[1]) for sg in groups])
             elif cmd[0] == "quit":
                 conn.send("bye")
                 return
